@@ -98,21 +98,22 @@ func die(n ast.Node, fset *token.FileSet, format string, a ...interface{}) {
 }
 
 type tr struct {
-	fset    *token.FileSet
-	unit    *Unit
-	file    *ast.File
-	structs map[string]map[string]string // struct -> field -> type
-	consts  map[string]string            // const name -> lean literal
-	ctypes  map[string]string            // const name -> go type ("" untyped)
-	fn      *ast.FuncDecl
-	env     map[string]string // var -> go type
-	named   []string          // named results
-	results []string          // result go types excluding error
-	hasErr  bool
-	errCtr  int
-	recv    string
-	paths   map[string]string // "uo.Head.Time" -> go type (selector params)
-	ifCount int
+	fset     *token.FileSet
+	unit     *Unit
+	file     *ast.File
+	structs  map[string]map[string]string // struct -> field -> type
+	consts   map[string]string            // const name -> lean literal
+	ctypes   map[string]string            // const name -> go type ("" untyped)
+	fn       *ast.FuncDecl
+	env      map[string]string // var -> go type
+	named    []string          // named results
+	results  []string          // result go types excluding error
+	hasErr   bool
+	errCtr   int
+	recv     string
+	paths    map[string]string // "uo.Head.Time" -> go type (selector params)
+	ifCount  int
+	hoistCtr int
 }
 
 var knownConsts = map[string]string{
@@ -929,6 +930,11 @@ func (t *tr) ifStmt(x *ast.IfStmt, rest []ast.Stmt, ind string) string {
 		inner := &ast.IfStmt{Cond: x.Cond, Body: x.Body, Else: x.Else}
 		return t.stmts(append([]ast.Stmt{as, inner}, rest...), ind)
 	}
+	// calls to translated single-result functions inside the condition (amount%f(p) != 0) are hoisted
+	// into a preceding match, in source order; not under && / || (short-circuit would be lost)
+	if pre, cond, ind2, ok := t.hoistCalls(x.Cond, ind); ok {
+		return pre + t.ifStmt(&ast.IfStmt{Cond: cond, Body: x.Body, Else: x.Else}, rest, ind2)
+	}
 	t.ifCount++
 	if t.ifCount > 40 {
 		die(x, t.fset, "function too branchy for the duplicating translation")
@@ -1017,6 +1023,76 @@ func (t *tr) forStmt(x *ast.ForStmt, rest []ast.Stmt, ind string) string {
 	return out + t.stmts(rest, ind)
 }
 
+// hoistCalls rewrites e so that every call to a translated function becomes a fresh variable bound by
+// an enclosing `match` (which propagates panic/err).  ok=false when e contains no such call.
+func (t *tr) hoistCalls(e ast.Expr, ind string) (pre string, out ast.Expr, ind2 string, ok bool) {
+	var calls []*ast.CallExpr
+	shortCircuit := false
+	ast.Inspect(e, func(n ast.Node) bool {
+		switch v := n.(type) {
+		case *ast.BinaryExpr:
+			if v.Op == token.LAND || v.Op == token.LOR {
+				shortCircuit = true
+			}
+		case *ast.CallExpr:
+			if t.lookupFunc(v) != nil {
+				calls = append(calls, v)
+				return false
+			}
+		}
+		return true
+	})
+	if len(calls) == 0 {
+		return "", e, ind, false
+	}
+	if shortCircuit {
+		die(e, t.fset, "call to a translated function under && / || in a condition")
+	}
+	names := map[*ast.CallExpr]string{}
+	for _, c := range calls {
+		sig := t.lookupFunc(c)
+		if sig.HasErr || len(sig.Results) != 1 {
+			die(c, t.fset, "call inside an expression must have exactly one non-error result")
+		}
+		pc := ""
+		for _, a := range c.Args {
+			pc = orP(pc, t.panicCond(a))
+		}
+		t.hoistCtr++
+		name := fmt.Sprintf("call%d_", t.hoistCtr)
+		pre += t.guard(pc, ind)
+		pre += ind + "match " + t.callStr(c, sig) + " with\n"
+		pre += ind + "| Res.panic p => Res.panic p\n"
+		pre += ind + "| Res.err e => Res.err e\n"
+		pre += ind + "| Res.ok " + name + " =>\n"
+		ind += "  "
+		t.env[name] = sig.Results[0]
+		names[c] = name
+	}
+	var rw func(ast.Expr) ast.Expr
+	rw = func(x ast.Expr) ast.Expr {
+		switch v := x.(type) {
+		case *ast.ParenExpr:
+			return &ast.ParenExpr{X: rw(v.X)}
+		case *ast.UnaryExpr:
+			return &ast.UnaryExpr{Op: v.Op, X: rw(v.X)}
+		case *ast.BinaryExpr:
+			return &ast.BinaryExpr{X: rw(v.X), Op: v.Op, Y: rw(v.Y)}
+		case *ast.CallExpr:
+			if n, ok := names[v]; ok {
+				return &ast.Ident{Name: n}
+			}
+			args := make([]ast.Expr, len(v.Args))
+			for i, a := range v.Args {
+				args[i] = rw(a)
+			}
+			return &ast.CallExpr{Fun: v.Fun, Args: args}
+		}
+		return x
+	}
+	return pre, rw(e), ind, true
+}
+
 func copyEnv(m map[string]string) map[string]string {
 	n := map[string]string{}
 	for k, v := range m {
@@ -1029,7 +1105,7 @@ func (t *tr) function(fd *ast.FuncDecl, leanName string) (string, *FuncSig) {
 	t.fn = fd
 	t.env = map[string]string{}
 	t.paths = map[string]string{}
-	t.named, t.results, t.hasErr, t.errCtr, t.ifCount = nil, nil, false, 0, 0
+	t.named, t.results, t.hasErr, t.errCtr, t.ifCount, t.hoistCtr = nil, nil, false, 0, 0, 0
 	sig := &FuncSig{LeanName: t.unit.Module + "." + leanName}
 	var params, ptypes []string
 	structParams := map[string]bool{}
